@@ -258,6 +258,7 @@ fn check_metadata(c: &Timing, rank: u64, acc: &mut Acc) {
         let mut t2 = *c;
         t2.cycle = c.cycle / 8.0;
         t2.rep = Rep::Times(3);
+        t2.delay = c.delay + 4.0;
         let want = match c.rep {
             Rep::Infinite => Repeat::Infinite,
             Rep::Times(n) => Repeat::Times(n.max(3)),
@@ -266,6 +267,11 @@ fn check_metadata(c: &Timing, rank: u64, acc: &mut Acc) {
         if t2.cycle > 0.0 {
             let twin = TlSpec { kfs: vec![], default_easing: 0, timing: t2 }.build();
             for pair in [MergedTimeline::of([probe.clone(), twin.clone()]), MergedTimeline::of([twin.clone(), probe.clone()])] {
+                // ... and the greater of the two totals (the twin starts 4 s later than this timeline)
+                let wd = if probe.duration() >= twin.duration() { probe.duration() } else { twin.duration() };
+                if pair.duration().to_bits() != wd.to_bits() && !(pair.duration().is_nan() && wd.is_nan()) {
+                    acc.sink.add("metadata:merged-duration-not-the-greatest", rank, || (format!("MergedTimeline of this timeline (total {}) and a twin that starts 4 s later (total {}) reports duration {}", probe.duration(), twin.duration(), pair.duration()), mk()));
+                }
                 if pair.repeat() != want {
                     acc.sink.add("metadata:merged-repeat-not-the-greatest", rank, || (format!("MergedTimeline of this timeline ({:?}) and a shorter one repeating Times(3) reports repeat {:?}, the greatest of the two is {:?}", c.rep, pair.repeat(), want), mk()));
                 }
@@ -462,7 +468,7 @@ pub fn run(run: Run) -> ! {
     cov.insert("traces_validated_against_impl".into(), json!(acc.exact + acc.semi_exact + acc.windowed));
     cov.insert("evaluations".into(), json!(acc.evals + acc.probe_evals));
     cov.insert("distinct_nontrivial".into(), json!(acc.exact + acc.semi_exact + acc.windowed));
-    cov.insert("rule".into(), json!("1152 timing configurations (cycle in {1/4,1,3,0.3,1e-3,1e3,1e-8,41,47,55,13,0.7,7, and 3, 7, 11 units of the smallest subnormal (half a cycle is not an f32 there)} x delay in {0,1/2,0.1,7,-1/2,-0.3} x repeat in {None,Times 0,1,2,7,Infinite} x reverse) + 96 with very large repeat counts (cycle 1,0.9,3 x delay 0,1/2 x Times 2^24-1,2^24,2^24+1,2^25-1,2^31,2^32-385,u32::MAX-1,u32::MAX x reverse) x {every f32 within +-1024 (thorough 4096) ulp of every phase boundary delay+j*cycle/2 (first cycles), of the delay, of the reported duration and of the configured total, a 1/16 grid up to 20, 2^k(1+j/7) up to 1.5e7 (also offset by the delay), 1e6, 1e30, f32::MAX, MIN_POSITIVE, negative times}; thorough additionally sweeps EVERY finite f32 bit pattern (both signs) for 64 configurations. Oracle RefTimeScale: position in [0,1]; NotStarted iff t<delay (exact); when the arithmetic is exact (power-of-two cycle, exact t-delay) the phase, position and loop flags must equal the reference bit for bit; when only t-delay is exact the phase and flags must be equal and the position within 3 ulp(1) (the remainder is exact, only the division rounds); otherwise agreement with the reference at some t' within +-3 ulp(t) (position tolerance stated per case); when 3 ulp(t) >= cycle/4 only boundedness and far-from-end terminal consistency are asserted (counted as bounded_only). Every evaluation of a finite configuration is also checked against the REPORTED duration: terminal strictly before get_duration() or not terminal strictly after it is a violation (no slack when delay = 0, 2 ulp otherwise). Metadata: delay/cycle/repeat exact, duration within 1.5 ulp (2.5 when repeats+1 needs more than 24 bits) of delay+cycle*(repeats+1), infinite iff Infinite; a timeline without keyframes, and the timeline wrapped in MergedTimeline::from, report the same metadata, while a MergedTimeline of the timeline and a twin whose cycle is the neighbouring f32 (either side, either order) reports no cycle duration, and merged with a shorter Times(3) twin it reports the greater of the two repeats; a linear 0->1 probe through Timeline::update must show exactly the position (the probe's duration/delay/repeat/reverse setters are called in one of four orders). non-trivial = evaluations compared with the reference (exact + windowed)"));
+    cov.insert("rule".into(), json!("1152 timing configurations (cycle in {1/4,1,3,0.3,1e-3,1e3,1e-8,41,47,55,13,0.7,7, and 3, 7, 11 units of the smallest subnormal (half a cycle is not an f32 there)} x delay in {0,1/2,0.1,7,-1/2,-0.3} x repeat in {None,Times 0,1,2,7,Infinite} x reverse) + 96 with very large repeat counts (cycle 1,0.9,3 x delay 0,1/2 x Times 2^24-1,2^24,2^24+1,2^25-1,2^31,2^32-385,u32::MAX-1,u32::MAX x reverse) x {every f32 within +-1024 (thorough 4096) ulp of every phase boundary delay+j*cycle/2 (first cycles), of the delay, of the reported duration and of the configured total, a 1/16 grid up to 20, 2^k(1+j/7) up to 1.5e7 (also offset by the delay), 1e6, 1e30, f32::MAX, MIN_POSITIVE, negative times}; thorough additionally sweeps EVERY finite f32 bit pattern (both signs) for 64 configurations. Oracle RefTimeScale: position in [0,1]; NotStarted iff t<delay (exact); when the arithmetic is exact (power-of-two cycle, exact t-delay) the phase, position and loop flags must equal the reference bit for bit; when only t-delay is exact the phase and flags must be equal and the position within 3 ulp(1) (the remainder is exact, only the division rounds); otherwise agreement with the reference at some t' within +-3 ulp(t) (position tolerance stated per case); when 3 ulp(t) >= cycle/4 only boundedness and far-from-end terminal consistency are asserted (counted as bounded_only). Every evaluation of a finite configuration is also checked against the REPORTED duration: terminal strictly before get_duration() or not terminal strictly after it is a violation (no slack when delay = 0, 2 ulp otherwise). Metadata: delay/cycle/repeat exact, duration within 1.5 ulp (2.5 when repeats+1 needs more than 24 bits) of delay+cycle*(repeats+1), infinite iff Infinite; a timeline without keyframes, and the timeline wrapped in MergedTimeline::from, report the same metadata, while a MergedTimeline of the timeline and a twin whose cycle is the neighbouring f32 (either side, either order) reports no cycle duration, and merged with a shorter Times(3) twin it reports the greater of the two repeats and (the twin starting 4 s later) the greater of the two totals; a linear 0->1 probe through Timeline::update must show exactly the position (the probe's duration/delay/repeat/reverse setters are called in one of four orders). non-trivial = evaluations compared with the reference (exact + windowed)"));
     cov.insert("exhaustive".into(), json!(true));
     cov.insert("compared_exact".into(), json!(acc.exact));
     cov.insert("compared_exact_phase_position_within_3ulp".into(), json!(acc.semi_exact));
